@@ -71,6 +71,39 @@ JudgeTag(e, i) ==
          ELSE \A d \in D : IF d \in KnownDevs THEN Report(i, "DEVIATION", d)
                            ELSE Report(i, "MISMATCH", Why(e) \o " (as deviation " \o d \o ", which is not a listed known finding)")
 
+(* Encoding level ("der" events): the DER bytes rasn produces for a value of the point's type;   *)
+(* outer = the TLV of the tagged element, inner = its first child.                              *)
+\* the element's own (untagged) outermost TLV; CHOICE kinds show the chosen alternative x INTEGER
+OwnTag(e) ==
+    CASE e.kind = "primitive" -> [cls |-> "universal", num |-> 2, cons |-> FALSE]
+      [] e.kind = "refseq" -> [cls |-> "universal", num |-> 16, cons |-> TRUE]
+      [] e.kind \in {"refchoice", "inlinechoice"} ->
+            IF e.md = "AUTOMATIC" THEN [cls |-> "context", num |-> 0, cons |-> FALSE]      \* its alternatives are tagged automatically
+            ELSE [cls |-> "universal", num |-> 2, cons |-> FALSE]
+      [] OTHER -> [cls |-> "universal", num |-> 5, cons |-> FALSE]                       \* the open type holds a NULL
+\* whether rasn applies automatic tags to the alternatives of a CHOICE that itself carries a tag is rasn's business, not this
+\* property's: for CHOICE kinds the untagged alternative is accepted as well
+Untagged == [cls |-> "universal", num |-> 2, cons |-> FALSE]
+OwnOK(e, n) == n = OwnTag(e) \/ (e.kind \in {"refchoice", "inlinechoice"} /\ n = Untagged)
+ExplainsDer(D, e) ==
+    IF ~CodePresent(D, e) THEN OwnOK(e, e.outer)
+    ELSE /\ e.outer.cls = e.cls /\ e.outer.num = e.num
+         /\ IF CodeExplicit(D, e) THEN e.outer.cons /\ OwnOK(e, e.inner)
+            ELSE e.outer.cons = OwnTag(e).cons /\ (e.outer.cons => e.inner # OwnTag(e) \/ e.kind = "refseq")
+MinExplainingDer(e) ==
+    LET ok == {D \in SUBSET AllDevs : ExplainsDer(D, e)}
+    IN IF ok = {} THEN {"<none>"}
+       ELSE CHOOSE D \in ok : \A D2 \in ok : Cardinality(D) <= Cardinality(D2)
+JudgeDer(e, i) ==
+    IF e.status \in {"err", "warn", "novalue"} THEN Report(i, "SKIP", e.status)
+    ELSE IF e.der_status = "rustc" THEN Report(i, "SKIP", "bindings rejected by rustc (C01): " \o e.detail)
+    ELSE IF e.der_status # "ok" THEN Report(i, "MISMATCH", "rasn cannot encode a value of the generated type: " \o e.der_status)
+    ELSE IF ExplainsDer({}, e) THEN TRUE
+    ELSE LET D == MinExplainingDer(e) IN
+         IF D = {"<none>"} THEN Report(i, "MISMATCH", "DER encoding of the tagged element is not what X.680 31.2.7 prescribes: " \o e.hex)
+         ELSE \A d \in D : IF d \in KnownDevs THEN Report(i, "DEVIATION", d)
+                           ELSE Report(i, "MISMATCH", "DER encoding differs from X.680 31.2.7 (as deviation " \o d \o ", which is not a listed known finding): " \o e.hex)
+
 JudgeAuto(e, i) ==
     IF e.status \in {"err", "warn"} THEN Report(i, "SKIP", e.status)
     ELSE IF e.status # "ok" THEN Report(i, "MISMATCH", "no item generated for the type")
@@ -81,7 +114,7 @@ JudgeAuto(e, i) ==
 Init == l = 1 /\ T!Init
 
 Step == /\ l <= Len(Rec)
-        /\ IF Rec[l].ev = "tag" THEN JudgeTag(Rec[l], l) ELSE JudgeAuto(Rec[l], l)
+        /\ IF Rec[l].ev = "tag" THEN JudgeTag(Rec[l], l) ELSE IF Rec[l].ev = "der" THEN JudgeDer(Rec[l], l) ELSE JudgeAuto(Rec[l], l)
         /\ l' = l + 1
         /\ UNCHANGED <<md, kw, cls, pos, kind, phase, explicit>>
 
